@@ -363,7 +363,14 @@ func fillLeaf(rv reflect.Value, l ref.Leaf, v ref.V) {
 // Extract is the inverse of Fill; the result is in the documented normal form
 // of Norm (a nil slice under an optional list is Null, zero optional
 // non-pointer values are Null, ...).
-func Extract(rv reflect.Value, n *ref.Node) ref.V {
+func Extract(rv reflect.Value, n *ref.Node) ref.V { return extract(rv, n, false) }
+
+// ExtractLax is Extract with the Go-level equivalence "nil and empty slices
+// and maps are the same" applied: an empty slice or map under an optional node
+// is reported as null, like a nil one.
+func ExtractLax(rv reflect.Value, n *ref.Node) ref.V { return extract(rv, n, true) }
+
+func extract(rv reflect.Value, n *ref.Node, lax bool) ref.V {
 	t := rv.Type()
 	if t.Kind() == reflect.Ptr {
 		if rv.IsNil() {
@@ -371,9 +378,12 @@ func Extract(rv reflect.Value, n *ref.Node) ref.V {
 		}
 		inner := *n
 		inner.Rep = "req"
-		return Extract(rv.Elem(), &inner)
+		return extract(rv.Elem(), &inner, lax)
 	}
 	if n.Rep == "opt" && rv.IsZero() {
+		return ref.V{Null: true}
+	}
+	if lax && n.Rep == "opt" && (t.Kind() == reflect.Slice || t.Kind() == reflect.Map) && rv.Len() == 0 {
 		return ref.V{Null: true}
 	}
 	if n.Rep == "rep" {
@@ -381,7 +391,7 @@ func Extract(rv reflect.Value, n *ref.Node) ref.V {
 		inner := *n
 		inner.Rep = "req"
 		for i := 0; i < rv.Len(); i++ {
-			out.L = append(out.L, Extract(rv.Index(i), &inner))
+			out.L = append(out.L, extract(rv.Index(i), &inner, lax))
 		}
 		return out
 	}
@@ -396,21 +406,21 @@ func Extract(rv reflect.Value, n *ref.Node) ref.V {
 			if !f.IsExported() || f.Tag.Get("parquet") == "-" {
 				continue
 			}
-			out.F = append(out.F, Extract(rv.Field(i), &n.Children[fi]))
+			out.F = append(out.F, extract(rv.Field(i), &n.Children[fi], lax))
 			fi++
 		}
 		return out
 	case "list":
 		out := ref.V{}
 		for i := 0; i < rv.Len(); i++ {
-			out.L = append(out.L, Extract(rv.Index(i), &n.Children[0]))
+			out.L = append(out.L, extract(rv.Index(i), &n.Children[0], lax))
 		}
 		return out
 	case "map":
 		out := ref.V{}
 		it := rv.MapRange()
 		for it.Next() {
-			out.L = append(out.L, ref.V{F: []ref.V{Extract(it.Key(), &n.Children[0]), Extract(it.Value(), &n.Children[1])}})
+			out.L = append(out.L, ref.V{F: []ref.V{extract(it.Key(), &n.Children[0], lax), extract(it.Value(), &n.Children[1], lax)}})
 		}
 		return out
 	}
